@@ -270,12 +270,13 @@ def run_python(history, ignore_exc, max_size, idle):
     if idle:
         pc.client_pool._idle_clock = lambda: w.now
     clients = {}
+    keep = []                   # strong references: `id()` of a collected client object must not be handed out again
     orig_create = pc._create_client
 
     def create():
         c = orig_create()
+        keep.append(c)
         clients[id(c)] = len(clients)
-        c._pc_keep = c
         return c
     pc.client_pool._obj_creator = create
     # release happens at `fin`: the clock is read once in get() and once in release()
